@@ -145,7 +145,7 @@ type Reader struct {
 	ZeroReads int
 	// ReadsAfterClose counts Reads issued after Close (they fail)
 	ReadsAfterClose int
-	OnRead    func() // optional scheduler point
+	OnRead          func() // optional scheduler point
 }
 
 func NewReader(s Script) *Reader { return &Reader{S: s} }
